@@ -201,8 +201,4 @@ theorem entry_local (g : List UInt8 → Nat → P → List Nat) (hg : IndexFree 
       refine ⟨(name, some bytes), hx, ?_⟩
       rw [key ps hp]; simp [hne]
 
-/-- the library keeps no state between calls: no `static`, `lazy_static!`, `thread_local!`, `unsafe`
-or interior-mutability type anywhere in the non-test sources (regenerated inventory) -/
-theorem no_global_state : Gen.globalSites = [] := by decide
-
 end Solstat
